@@ -35,6 +35,27 @@ EXTRA = {
  "C05f-unwind-depth-read-at-exit": ["C07", "C06"], "C13f-size-checked-on-node-entry": ["C18"], "C20f-fold-accepts-65536": ["C03"], "C20f-arity-error-leaves-callee-code": ["C07", "C06"],
  "C12f-fold-keeps-stale-constants-out-of-range": ["C03"], "C12f-divzero-fold-keeps-stale-constants": ["C03"], "C12f-slash-after-lsquare-table": ["C14"],
  "C03f-function-optimizer-error-replaces-main": ["C19"], "C03f-float-literal-string-by-value": ["C19"], "C18f-function-size-check-uses-main": ["C02"], "C18f-sqrt-fold-abandoned-keeps-constants": ["C03"],
+ # round 8 (suffix h)
+ "C01h-eq-fold-by-pool-slot": ["C03"], "C01h-regexp-ring-cache-stale": ["C17"], "C01h-shared-submap-null": ["C04"],
+ "C02h-field-cache-kept-when-calls-leak": ["C07", "C04"], "C02h-placeholder-does-not-stop-folding": ["C03"], "C02h-regexp-ring-cache-stale": ["C01", "C17"],
+ "C03h-constant-functions-inlined": ["C06", "C20"], "C03h-eq-fold-same-pool-entry": ["C01"], "C03h-if-shares-placeholder-wiped-by-optimizer": ["C18"],
+ "C04h-prepare-restores-header-only": ["C13", "C08", "C19"], "C04h-promoted-field-shadows-outer": [], "C04h-sort-in-place": ["C17"],
+ "C05h-and-true-dropped-by-opcode-range": ["C03"], "C05h-copy-in-set-params-step-in-place": ["C15", "C07"], "C05h-createhash-marks-leak": ["C07", "C04"],
+ "C06h-call-limit-counts-scopes": ["C01"], "C06h-callee-stacks-per-level": ["C07"], "C06h-scripted-call-cache": ["C20"],
+ "C07h-host-function-cached": ["C20"], "C07h-join-leaves-position": ["C16"], "C07h-loop-variable-stepped-in-place": ["C15"],
+ "C08h-prepare-limit-failure-keeps-old-machine": ["C19", "C13"], "C08h-run-dumps-under-its-own-lock": ["C20"], "C08h-switch-value-function-pool-rollback": ["C18"],
+ "C09h-depth-walk-exponential": ["C08"], "C09h-done-channel-outermost-frame-leak": ["C07"], "C09h-straight-flag-from-last-function": [],
+ "C10h-host-warn-to-stderr": [], "C10h-print-falls-back-to-stderr": [], "C10h-range-reads-meminfo": [],
+ "C11h-field-map-pool-double-put": [], "C11h-foreach-in-place-when-unstepped": [], "C11h-time-memo-shared-by-all": [],
+ "C12h-hash-key-ternary-floor": [], "C12h-parser-pool-depth-leaks": ["C13", "C19"], "C12h-ternary-flag-survives-failed-prepare": ["C13", "C19"],
+ "C13h-mode-bits-ternary-wiped-by-function": [], "C13h-parser-pool-keeps-function-flag": [], "C13h-switch-value-only-default-not-compiled": [],
+ "C14h-constant-index-stale-after-rollback": ["C01", "C02"], "C14h-slash-equals-before-regexp": ["C12"], "C14h-step-mutates-before-copy": ["C15", "C07"],
+ "C15h-member-stepped-in-place": ["C04"], "C15h-scope-store-recycled-unwind": ["C07", "C06"], "C15h-set-remembered-scope": ["C06"],
+ "C16h-createhash-mark-no-defer": ["C07", "C04"], "C16h-float-zero-keys-unordered": ["C19"], "C16h-foreach-in-place-when-idle": ["C02", "C06"],
+ "C17h-host-time-via-unixnano": ["C04"], "C17h-regexp-cache-stale-after-eviction": ["C01"], "C17h-regexp-flags-merged-in-pool": ["C01", "C14"],
+ "C18h-bare-return": ["C13"], "C18h-else-without-code-no-placeholder": ["C02"], "C18h-function-table-survives-prepare": ["C19"],
+ "C19h-compile-depth-leaks": ["C13"], "C19h-createhash-cleanup-no-defer": ["C07"], "C19h-float-literal-string-by-value": [],
+ "C20h-cli-unwraps-error": [], "C20h-null-variable-yields-field": ["C04"], "C20h-panic-leaves-scopes-open": ["C07", "C06"],
  # round 5
  "C19e-fields-kept-for-same-pointer": ["C07", "C04"], "C19e-float-hashkey-memo-copied": ["C16"], "C17e-sorted-array-keeps-cached-text": [], "C10e-zone-argument-reads-files": ["C17"],
  "C04e-convert-mark-leaks-on-panic": ["C07"], "C04e-fields-kept-after-runaway-recursion": ["C07"], "C05e-fields-kept-for-nil-object": ["C07", "C04"], "C05e-placeholders-dropped-second-round": ["C03"],
@@ -55,6 +76,12 @@ for k, a in enumerate(sys.argv):
         shard_i, shard_n = [int(x) for x in sys.argv[k + 1].split("/")]
 args = [a for a in args if "/" not in a]
 pref = args[0] if args else ""
+rnd = ""
+for k, a in enumerate(sys.argv):
+    if a == "--round":
+        rnd = sys.argv[k + 1]
+args = [a for a in args if a != rnd]
+pref = args[0] if args else ""
 rows = []
 count = 0
 for sid in sorted(os.listdir(os.path.join(ROOT, "seeded"))):
@@ -64,7 +91,7 @@ for sid in sorted(os.listdir(os.path.join(ROOT, "seeded"))):
         continue
     meta = json.load(open(mf))
     count += 1
-    if sid.startswith(pref) and not table_only and count % shard_n == shard_i:
+    if sid.startswith(pref) and (not rnd or re.match(r"C\d\d" + rnd + "-", sid)) and not table_only and count % shard_n == shard_i:
         props = [meta["property"]] + EXTRA.get(sid, [])
         res = {}
         for p in props:
